@@ -41,7 +41,7 @@ type TaskLane struct {
 
 	// Status
 	blockingTaskCnt *atomic.Uint32
-	lastPanic       any
+	lastPanic       atomic.Pointer[any]
 }
 
 func (tl *TaskLane) startQueue(index int) {
@@ -113,7 +113,7 @@ func (tl *TaskLane) startWorker(index int) {
 		func() {
 			defer func() {
 				if err := recover(); err != nil {
-					tl.lastPanic = err
+					tl.lastPanic.Store(&err)
 					vhook(tl, "w.recovered", index, task)
 				}
 			}()
@@ -184,11 +184,15 @@ func (tl *TaskLane) Status() *LaneStatus {
 		pending += len(tl.bufferedQueueList[i])
 	}
 	pending += int(tl.blockingTaskCnt.Load())
+	var lastPanic any
+	if p := tl.lastPanic.Load(); p != nil {
+		lastPanic = *p
+	}
 	return &LaneStatus{
 		LaneSize:    tl.laneSize,
 		QueueSize:   tl.queueSize,
 		PendingTask: pending,
-		LastPanic:   tl.lastPanic,
+		LastPanic:   lastPanic,
 	}
 }
 
